@@ -1,23 +1,36 @@
 package trzsz
 
-func verifNondetRange(lo, hi int) int
-func verifNondetInt() int
-func verifAssume(bool)
-func verifAssert(bool, string)
-func verifReach(string)
-func verifAbstractName(k int) string
-func verifOpaqueASCII(lo, hi int) string
-func verifDisplayWidth(s string) int
+// C20 — the progress line always fits the terminal and never misreports.
+// A: ellipsis contract on names of abstract runes with symbolic display widths; B: the layout ladder for every
+// width 5..500; C: the callback state machine over arbitrary int64 arguments (every render sees 0 <= step <= size);
+// D: the bar for every length and every valid (step, size). Float expressions are replaced by a contract stub.
 
-const zzRunes = 28
+type zzSink20 struct{ data []byte }
 
+func (s *zzSink20) Write(p []byte) (int, error) {
+	s.data = append(s.data, p...)
+	return len(p), nil
+}
+
+// A — getEllipsisString: reported width = real width <= max, for names of K runes of width 0/1/2 each
+func zzH_C20_ellipsis() {
+	name := verifAbstractName(verifBound("K"))
+	max := verifNondetRange(4, 60)
+	s, w := getEllipsisString(name, max)
+	verifAssert(w == verifDisplayWidth(s), "reported width differs from the real width")
+	verifAssert(w <= max, "shortened name wider than asked")
+	verifAssert(w >= 3, "ellipsis dots missing")
+	verifReach("ellipsis")
+}
+
+// B — layout ladder: whatever the name, the counts and the field lengths, the line fits the width
 func zzH_C20_layout() {
 	p := &textProgressBar{}
 	cols := verifNondetRange(5, 500)
 	p.columns.Store(int32(cols))
-	p.fileCount = 1
-	p.fileIdx = 1
-	p.fileName = verifAbstractName(verifNondetRange(0, zzRunes))
+	p.fileCount = verifNondetRange(1, 9999)
+	p.fileIdx = verifNondetRange(1, 9999)
+	p.fileName = verifAbstractName(verifBound("RUNES"))
 	p.fileSize = int64(verifNondetInt())
 	p.fileStep = int64(verifNondetInt())
 	verifAssume(p.fileSize >= 0)
@@ -32,28 +45,77 @@ func zzH_C20_layout() {
 	verifReach("layout")
 }
 
-// rendering must not fail whatever step/size it is handed
-func zzH_C20_anyStep() {
+// D — the bar: rendering never fails whatever step and size it is handed; for every valid position the cells fill the bar
+func zzH_C20_bar() {
 	p := &textProgressBar{}
-	p.columns.Store(int32(verifNondetRange(5, 500)))
-	p.fileCount = 1
-	p.fileIdx = 1
-	p.fileName = "x"
 	p.fileSize = int64(verifNondetInt())
 	p.fileStep = int64(verifNondetInt())
-	verifAssume(p.fileSize >= 0)
-	verifAssume(p.fileStep >= 0)
-	out := p.getProgressText("100%", "1.00 KB", "1.00 KB/s", "00:01 ETA")
-	_ = out
-	verifReach("anystep")
+	length := verifNondetInt()
+	verifAssume(length >= -1000)
+	verifAssume(length <= 1000)
+	bar := p.getProgressBar(length) // a Go panic here (negative Repeat count) is the violation
+	if length < 12 {
+		verifAssert(len(bar) == 0, "bar drawn although there is no room")
+		verifReach("no-bar")
+		return
+	}
+	verifAssert(verifDisplayWidth(bar) == length, "bar does not fill its length")
+	verifReach("bar")
 }
 
-const zzK = 56
-
-func zzH_C20_ellipsis() {
-	name := verifAbstractName(zzK)
-	s, w := getEllipsisString(name, 50)
-	verifAssert(w == verifDisplayWidth(s), "reported width differs from the real width")
-	verifAssert(w <= 50, "ellipsis result wider than asked")
-	verifReach("ellipsis")
+// C — the callback state machine in the order the transfer code drives it: onNum, then per file onName, onSize and
+// any sequence of onStep(any int64: repeats, regressions, values beyond the size, negative) / resume(m) =
+// setPreSize(m)+onSize(size-m) / onDone. Whenever a line is rendered the position lies within 0..size (percentage
+// 0..100, drawable bar) and the position shown never decreases within a file.
+func zzH_C20_state() {
+	sink := &zzSink20{}
+	p := newTextProgressBar(sink, int32(verifNondetRange(5, 200)), 0, "", "")
+	p.onNum(int64(verifNondetRange(1, 3)))
+	lastShown := int64(-1)
+	size := int64(0)
+	call := func(rendering bool, f func()) {
+		before := len(sink.data)
+		failed := false
+		func() {
+			defer func() {
+				if r := recover(); r != nil {
+					failed = true
+				}
+			}()
+			f()
+		}()
+		if failed || (rendering && len(sink.data) > before) {
+			verifAssert(p.fileStep >= 0, "rendered with a negative position")
+			if p.fileSize != 0 {
+				verifAssert(p.fileStep <= p.fileSize, "rendered with a position beyond the size (percentage > 100, negative bar)")
+			}
+			verifAssert(p.fileStep >= lastShown, "position shown decreased within a file")
+			lastShown = p.fileStep
+			verifReach("rendered")
+		}
+		verifAssert(!failed, "rendering failed")
+	}
+	for file := 0; file < verifBound("FILES"); file++ {
+		call(false, func() { p.onName("f") })
+		lastShown = -1
+		size = int64(verifNondetInt())
+		verifAssume(size >= 0)
+		verifAssume(size <= 1<<62)
+		call(false, func() { p.onSize(size) })
+		for k := 0; k < verifBound("CALLS"); k++ {
+			switch verifNondetRange(0, 2) {
+			case 0:
+				step := int64(verifNondetInt())
+				call(true, func() { p.onStep(step) })
+			case 1:
+				m := int64(verifNondetInt())
+				verifAssume(m >= 0)
+				verifAssume(m <= size)
+				call(false, func() { p.setPreSize(m); p.onSize(size - m) })
+			case 2:
+				call(true, func() { p.onDone() })
+			}
+		}
+	}
+	verifReach("state")
 }
